@@ -231,10 +231,19 @@ def check_e2e(case, acc):
     for integ in ("generic", "rdflib"):
         exp = want  # rows are written by the generic encoder; both readers deliver the wire terms unchanged
         for label, data, src in (("delimited", delim, None), ("nondelimited", single, None),
-                                 ("delimited", delim, "buffered"), ("delimited", delim, "raw"), ("nondelimited", single, "buffered")):
+                                 ("delimited", delim, "buffered"), ("delimited", delim, "raw"), ("nondelimited", single, "buffered"),
+                                 ("delimited", delim, "offset"), ("nondelimited", single, "offset")):
             try:
                 if src is None:
                     got = pyj.parse_flat(data, integ)
+                elif src == "offset":
+                    # the stream starts somewhere inside a seekable input (after a container header, say); the caller has
+                    # positioned the input there
+                    junk = b"\x0a\x0a\x00HEADER\x0a"
+                    b = io.BytesIO(junk + data)
+                    b.seek(len(junk))
+                    got = pyj.parse_flat(None, integ, source=b)
+                    label = f"{label}-at-offset"
                 else:
                     # the first bytes may arrive in pieces: a non-seekable source whose first reads deliver 1 and 2 bytes
                     from vlib import iosim
